@@ -28,9 +28,10 @@ DewExpected(r, lb) ==
 PatObserved(r) == [ok |-> r.out.ok, m |-> r.out.m]
 DewObserved(r) == [dok |-> r.out.dok, dm |-> r.out.dm]
 
+InDomainNames(p, ns) == ~LongRun(p) /\ \A i \in 1..Len(ns) : ~LongRun(ns[i])
 PatVerdict(r) ==
     IF ~Shape(r.out, {"ok", "m"}) THEN "bad"
-    ELSE IF ~Judged(r.in.p) THEN "ok"
+    ELSE IF ~Judged(r.in.p) \/ ~InDomainNames(r.in.p, r.in.ns) THEN "ok"
     ELSE LET flat == ~HasAnyOf(r.in.p, {LBRACE, RBRACE})
              okD(lb) == ~flat \/ (Shape(r.out, {"dok", "dm"}) /\ DewObserved(r) = DewExpected(r, lb))
          IN IF PatObserved(r) = PatExpected(r, 0) /\ okD(0) THEN "ok"
@@ -54,7 +55,7 @@ BestLawsHold(r, lb) ==
 
 BestVerdict(r) ==
     IF ~Shape(r.out, {"ok"}) THEN "bad"
-    ELSE IF ~Judged(r.in.p) THEN "ok"
+    ELSE IF ~Judged(r.in.p) \/ ~InDomainNames(r.in.p, <<r.in.a, r.in.b>>) THEN "ok"
     ELSE IF r.out = BestExpected(r, 0) /\ BestLawsHold(r, 0) THEN "ok"
     ELSE IF r.out = BestExpected(r, 96) /\ BestLawsHold(r, 96) THEN "KF1"
     ELSE "bad"
